@@ -8,6 +8,8 @@ use serde_json::{json, Value};
 
 pub const DEFAULT_SEED: u64 = 20261003;
 pub const FP_CAP: usize = 1_500_000;
+/// flag in the progress word: the worker is minimising a violation of that run
+pub const MINIMISING: u64 = 1 << 63;
 
 pub fn verif_dir() -> PathBuf {
     PathBuf::from(std::env::var("VERIF_DIR").unwrap_or_else(|_| "/verif".into()))
